@@ -56,6 +56,46 @@ def placement_oracle(before, detail, after):
     return out
 
 
+def ext_commit_placements(script, recs):
+    """External commits of a history, decided on the implementation's trees: the joiner's leaf is the
+    leftmost slot that is blank once the leaf it removes (a re-join) has been blanked.  Yields
+    descriptions of what fails plus the number of external commits looked at."""
+    ops = script["ops"]
+    out, seen = [], 0
+    prev, pend = None, None
+    for r in recs:
+        if r.get("crash"):
+            break
+        if r.get("op") == "ext_commit" and r.get("ok") and prev is not None:
+            pend = (ops[r["i"]]["who"], bool(ops[r["i"]].get("remove_self")), prev, r["i"])
+        if "obs" in r and len(r["obs"]) > 1:
+            cur = r["obs"]
+            if pend is not None:
+                who, rem, before_obs, opi = pend
+                pend = None
+                bs = [o for n, o in before_obs.items() if n != who and o and o.get("group") and not o.get("observer")]
+                if bs:
+                    e0 = max(o["epoch"] for o in bs)
+                    before = next(o["tree"] for o in bs if o["epoch"] == e0)
+                    afters = [o for n, o in cur.items() if o and o.get("group") and not o.get("observer") and o["epoch"] == e0 + 1]
+                    if afters:
+                        seen += 1
+                        after = afters[0]["tree"]
+                        occupied = [x != "_" for x in before[0::2]]
+                        old = [k for k, x in enumerate(before[0::2]) if isinstance(x, dict) and x.get("L") == who]
+                        if rem:
+                            for k in old:
+                                occupied[k] = False
+                        slot = occupied.index(False) if False in occupied else len(occupied)
+                        now = [k for k, x in enumerate(after[0::2]) if isinstance(x, dict) and x.get("L") == who]
+                        if rem and len(now) == 1 and now[0] != slot:
+                            out.append({"what": f"external joiner {who} was placed in leaf {now[0]}, the leftmost blank leaf was {slot}", "op": opi, "before": before, "after": after})
+                        if not rem and not old and len(now) == 1 and now[0] != slot:
+                            out.append({"what": f"external joiner {who} was placed in leaf {now[0]}, the leftmost blank leaf was {slot}", "op": opi, "before": before, "after": after})
+            prev = cur
+    return out, seen
+
+
 def commits_of(script, recs):
     """Walk the records of a HistGen history: yield one entry per applied commit:
     dict(before=<committer's tree before>, info=<commit description>, commit_rec=<record of the
